@@ -5,6 +5,9 @@
 
 pub mod fl;
 pub mod fvec;
+pub mod tv;
+pub mod acc;
+pub mod swz_gen;
 
 use serde_json::{json, Value};
 use std::io::{BufRead, Write};
@@ -129,6 +132,9 @@ pub fn catch<T>(f: impl FnOnce() -> T) -> Result<T, String> {
 }
 
 pub fn quiet_panics() {
+    if std::env::var("HX_LOUD").is_ok() {
+        return;
+    }
     std::panic::set_hook(Box::new(|_| {}));
 }
 
